@@ -86,9 +86,12 @@ for n, checks in by.items():
     json.dump(m, open(mp, "w"), indent=1)
 mat = {}
 mpath = ROOT + "/seeded/MATRIX.json"
-if os.path.exists(mpath) and names != sorted(by):
-    mat = json.load(open(mpath)).get("matrix", {})
-mat.update(by)
+# the matrix is always rebuilt from every stored seed's meta.json, so a partial run cannot drop rows
+import glob
+for mp in sorted(glob.glob(ROOT + "/seeded/*/meta.json")):
+    m = json.load(open(mp))
+    if m.get("checks_run_against_it"):
+        mat[os.path.basename(os.path.dirname(mp))] = m["checks_run_against_it"]
 json.dump(dict(tier=tier, heads=heads, matrix=mat), open(mpath, "w"), indent=1)
 own_missed = [n for n in by if by[n].get(n[:3], {}).get("rc") != 1]
 print("seeds:", len(by), "own property's check caught:", len(by) - len(own_missed), "not caught by own check:", own_missed)
